@@ -311,6 +311,51 @@ func c02Enumerate(tier string, seed int64, emit func(string, any)) {
 	}
 }
 
+// addParens marks expression nodes to be printed inside redundant parentheses (never statement roots,
+// assignment targets or callees, where the grammar does not accept a parenthesised form).
+func addParens(n *Node, root bool) {
+	if n == nil {
+		return
+	}
+	switch n.K {
+	case KBin, KUn, KTern, KTern2, KIndex, KSlice, KMethod, KCall, KAttr, KArr, KDict, KRange, KInt, KFloat, KStr:
+		if !root {
+			n.Paren = true
+		}
+	}
+	switch n.K {
+	case KCall:
+		// callee must stay an identifier
+	case KAssignIndex, KAssignSlice:
+		// the assignment target (A) must stay a postfix form; index / bounds / value may be parenthesised
+	default:
+		addParens(n.A, false)
+	}
+	if n.K == KMethod || n.K == KAttr || n.K == KIndex {
+		// already handled A above (a parenthesised receiver is legal)
+	}
+	addParens(n.B, false)
+	addParens(n.C, false)
+	addParens(n.D, false)
+	for _, k := range n.Kids {
+		if n.K == KTpl {
+			if k.K == KHole {
+				for _, b := range k.Body {
+					addParens(b, true)
+				}
+			}
+			continue
+		}
+		addParens(k, false)
+	}
+	for _, b := range n.Body {
+		addParens(b, true)
+	}
+	for _, b := range n.Else {
+		addParens(b, true)
+	}
+}
+
 func c02Run(raw json.RawMessage) harn.Result {
 	var c c02Case
 	if err := json.Unmarshal(raw, &c); err != nil {
@@ -319,6 +364,14 @@ func c02Run(raw json.RawMessage) harn.Result {
 	res := harn.Result{Stats: map[string]int64{}}
 	ds.VerifRollHook, ds.VerifStepHook = nil, nil
 	p := printerFor(c.Variant)
+	if c.Variant%8 >= 4 {
+		// redundant parentheses around every operator / ternary / call / index sub-expression
+		for _, prog := range c.Progs {
+			for _, st := range prog {
+				addParens(st, true)
+			}
+		}
+	}
 	cfg := drv.Cfg{OpLimit: 20000, IgnoreDiv0: c.Div0, Min: c.Dice == -1, Max: c.Dice == 1}
 	vm := drv.NewVM(cfg)
 	it := &Interp{IgnoreDiv0: c.Div0, DiceMode: c.Dice, MaxSteps: 20000, P: p}
